@@ -46,6 +46,34 @@ def parseClaim (j : Json) : Option (Int × Nat × List Nat) :=
     pure (t, qi, js)
   | _ => none
 
+/-- exact value of a double given by its bit pattern: `some (m, e)` with value `m · 2^e`; `none` for inf / NaN -/
+def decodeBits (n : Nat) : Option (Int × Int) :=
+  let sign := n >>> 63
+  let ex := (n >>> 52) % 2048
+  let fr := n % 4503599627370496
+  if ex == 2047 then none
+  else
+    let m : Nat := if ex == 0 then fr else fr + 4503599627370496
+    let e : Int := (if ex == 0 then (1 : Int) else (ex : Int)) - 1075
+    some (if sign == 1 then -(m : Int) else (m : Int), e)
+
+/-- the complete positions (computed in `Float`, bit for bit what numpy's `x + shift_x` gives) of a list, decoded exactly -/
+def decodePos (l : List (Pt Float)) : Option (List (Int × Int × List (Int × Int))) :=
+  l.mapM (fun p => do
+    let v := pos p
+    let x ← decodeBits (bitsOfFloat v.x); let y ← decodeBits (bitsOfFloat v.y); let z ← decodeBits (bitsOfFloat v.z)
+    pure (p.tomo, p.sub, [x, y, z]))
+
+def minExp (ls : List (Int × Int × List (Int × Int))) : Int :=
+  ls.foldl (fun acc (_, _, cs) => cs.foldl (fun a (m, e) => if m == 0 then a else min a e) acc) 0
+
+/-- all positions scaled by `2^(-emin)`: exact integers -/
+def toIntPts (emin : Int) (ls : List (Int × Int × List (Int × Int))) : List (Pt Int) :=
+  ls.map (fun (t, s, cs) =>
+    let c := cs.map (fun (m, e) => m * (2 : Int) ^ (e - emin).toNat)
+    { tomo := t, sub := s, base := ⟨c.getD 0 0, c.getD 1 0, c.getD 2 0⟩, shift := ⟨0, 0, 0⟩,
+      phi := ⟨1, 0⟩, theta := ⟨1, 0⟩, psi := ⟨1, 0⟩ })
+
 def handle (j : Json) : Json :=
   match getStr? j "op", getNat? j "k", getNat? j "px", getArr? j "a" >>= parsePts, getArr? j "nn" >>= parsePts with
   | some op, some k, some px, some a, some nn =>
@@ -56,11 +84,17 @@ def handle (j : Json) : Json :=
     | "check" =>
       match (getArr? j "claims") >>= (fun c => c.toList.mapM parseClaim) with
       | some claims =>
-        Json.mkObj [("ok", Json.arr (claims.map (fun (t, qi, js) =>
-          let cn := subset t nn
-          match (subset t a)[qi]? with
-          | some q => Json.bool (checkKnn k cn.length (keyOf q cn) js)
-          | none => Json.bool false)).toArray)]
+        match decodePos a, decodePos nn with
+        | some da, some dn =>
+          let emin := min (minExp da) (minExp dn)
+          let ai := toIntPts emin da
+          let ni := toIntPts emin dn
+          Json.mkObj [("ok", Json.arr (claims.map (fun (t, qi, js) =>
+            let cn := subset t ni
+            match (subset t ai)[qi]? with
+            | some q => Json.bool (checkKnnInt k cn.length (keyOf q cn) js)
+            | none => Json.bool false)).toArray), ("exact", Json.bool true)]
+        | _, _ => err "non-finite-position"
       | none => err "bad-args"
     | _ => err "bad-op"
   | _, _, _, _, _ => err "bad-args"
